@@ -1248,6 +1248,25 @@ func ruleThrowIdentity(c *Ctx, rule string) {
 				if v == ssa.Value(ta) {
 					same = true
 				}
+				// one throw after a type switch: the arm of the assertion contributes the asserted value itself
+				if phi, ok := v.(*ssa.Phi); ok {
+					for _, e := range phi.Edges {
+						for d := 0; d < 4; d++ {
+							switch x := e.(type) {
+							case *ssa.ChangeType:
+								e = x.X
+								continue
+							case *ssa.Extract:
+								e = x.Tuple
+								continue
+							}
+							break
+						}
+						if e == ssa.Value(ta) {
+							same = true
+						}
+					}
+				}
 			}
 			c.Check(rule, fnName(fn)+" | an error that is a *RuntimeError", l.Pos(ta.Pos()), same, "thrown as the same object",
 				"a Go error that already is a *RuntimeError is not thrown as the same object (a copy or a wrapper is thrown): the error a script function raises loses its identity when the function is called from Go - `err == sentinel`, isError and errors.Is succeed for the in-script call and fail for the call through an Invoker")
@@ -2955,27 +2974,43 @@ func ruleThrowTraceFlag(c *Ctx, rule string) {
 			if !ok || cl.Call.StaticCallee() != throw || len(cl.Call.Args) < 3 {
 				return
 			}
-			// is the thrown error made here (a call result), or the parameter itself?
-			v := cl.Call.Args[1]
-			made := false
-			switch x := v.(type) {
-			case *ssa.Call:
-				made = true
-			case *ssa.Extract:
-				_, made = x.Tuple.(*ssa.Call)
+			// the (error, flag) pairs this call can be made with: both arguments may be
+			// phis of one block (a type switch that computes them, followed by one throw)
+			type pair struct{ v, flag ssa.Value }
+			pairs := []pair{{cl.Call.Args[1], cl.Call.Args[2]}}
+			if pv, ok := cl.Call.Args[1].(*ssa.Phi); ok {
+				pairs = nil
+				pf, flagPhi := cl.Call.Args[2].(*ssa.Phi)
+				for i, e := range pv.Edges {
+					fl := cl.Call.Args[2]
+					if flagPhi && pf.Block() == pv.Block() && i < len(pf.Edges) {
+						fl = pf.Edges[i]
+					}
+					pairs = append(pairs, pair{e, fl})
+				}
 			}
-			if !made {
-				return
+			for _, pr := range pairs {
+				// is the thrown error made here (a call result), or the parameter itself?
+				made := false
+				switch x := pr.v.(type) {
+				case *ssa.Call:
+					made = true
+				case *ssa.Extract:
+					_, made = x.Tuple.(*ssa.Call)
+				}
+				if !made {
+					continue
+				}
+				n++
+				k, isConst := pr.flag.(*ssa.Const)
+				traced := isConst && k.Value != nil && k.Value.Kind() == constant.Bool && !constant.BoolVal(k.Value)
+				key := fnName(fn) + " | error wrapped here and thrown"
+				if kk := countKey(key); kk > 1 {
+					key += fmt.Sprintf(" #%d", kk)
+				}
+				c.Check(rule, key, l.Pos(cl.Pos()), traced, "thrown with noTrace = false: the failing instruction's position is recorded",
+					"an error that the VM wraps at this point is thrown with noTrace = true: the position of the statement that failed (a host function returning a plain Go error, a recovered panic) is missing from the stack trace, only the callers' lines are reported")
 			}
-			n++
-			k, isConst := cl.Call.Args[2].(*ssa.Const)
-			traced := isConst && k.Value != nil && k.Value.Kind() == constant.Bool && !constant.BoolVal(k.Value)
-			key := fnName(fn) + " | error wrapped here and thrown"
-			if kk := countKey(key); kk > 1 {
-				key += fmt.Sprintf(" #%d", kk)
-			}
-			c.Check(rule, key, l.Pos(cl.Pos()), traced, "thrown with noTrace = false: the failing instruction's position is recorded",
-				"an error that the VM wraps at this point is thrown with noTrace = true: the position of the statement that failed (a host function returning a plain Go error, a recovered panic) is missing from the stack trace, only the callers' lines are reported")
 		})
 	}
 	resetKeyCount()
